@@ -99,6 +99,18 @@ def run(ctx):
                     if y.get('k') == 'DeclRefExpr' and y.get('di') in locals_init:
                         fs = fields_in(locals_init[y['di']], 'ErrorMessage')
             wseq.append((s0['l'], fs))
+            lossy = [y.get('fn') for y in walk(arg) if y.get('k') in ('CallExpr', 'CXXMemberCallExpr') and (y.get('fn') or '').endswith('fixInvalidChars')]
+            src = arg
+            if not lossy:
+                for y in walk(arg):
+                    if y.get('k') == 'DeclRefExpr' and y.get('di') in locals_init:
+                        lossy = [z.get('fn') for z in walk(locals_init[y['di']]) if z.get('k') in ('CallExpr', 'CXXMemberCallExpr') and (z.get('fn') or '').endswith('fixInvalidChars')]
+            if fs:
+                ctx.ob('R15.1', 'lossless:%s' % fs[0], not lossy,
+                       ('ErrorMessage::%s is transferred unchanged' % fs[0]) if not lossy else
+                       ('serialize() passes ErrorMessage::%s through fixInvalidChars before it is sent: every byte outside printable ASCII arrives as an octal escape, so the process '
+                        'executor prints a different text than a single job or the thread executor for the same finding (the framing is length-prefixed and needs no escaping)' % fs[0]),
+                       '%s:%s' % (ser['file'], s0['l']))
     results = None
     arr_n = None
     for x in walk(db):
